@@ -101,6 +101,7 @@ func loopBodyEntry(f *ssa.Function, inBody ssa.Instruction) (*ssa.BasicBlock, *s
 }
 
 func checkC10(p *load.Program, r *kit.Report) {
+	importRules(p, r, "C11", "the branch Clean consolidates takes the place of the oldest branch: with another parent (or first header) the new main branch still answers hash lookups through the displaced chain's map, and the displaced chain can no longer be extended", 1, nil, "CONSOLIDATE-IDENTITY")
 	importRules(p, r, "C09", "history that Clean drops from memory stays retrievable by hash through the repository's height map: ProcessHeader must have entered every accepted hash under its true height", 2,
 		func(o *kit.Obligation) bool {
 			return strings.Contains(o.Construct, "Repository.ProcessHeader/label:heights")
